@@ -37,8 +37,11 @@ TRet    == IsEv("ret") /\ LET x == Log[l] IN Ret(x.c, x.k, x.err, x.eni, Rng(x.v
 (* end of a scenario: the specification's cloud and metadata are the fake's (the two models of the cloud agree) *)
 TFinal  == IsEv("final") /\ cloud = CloudOf(Log[l].cloud) /\ meta = MetaOf(Log[l].meta) /\ Open = {} /\ UNCHANGED vars
 
+TQuiet  == IsEv("quiescent") /\ Quiescent({ [e |-> x.e, status |-> x.status, v4 |-> Rng(x.v4), v6 |-> Rng(x.v6), valid4 |-> Rng(x.valid4), valid6 |-> Rng(x.valid6)]
+                                              : x \in Rng(Log[l].st) })
+
 TInit == Init /\ l = 1
-TNext == TReset \/ TSkip \/ TCall \/ THttp \/ TEnv \/ TRet \/ TFinal
+TNext == TReset \/ TSkip \/ TCall \/ THttp \/ TEnv \/ TRet \/ TFinal \/ TQuiet
 TSpec == TInit /\ [][TNext]_<<vars, l>>
 
 HighWater == IF l > TLCGet(1) THEN TLCSet(1, l) ELSE TRUE
